@@ -1,21 +1,43 @@
 #!/bin/sh
 # Runs the repository's pinned baseline suite (guard OFF) and compares with /root/.vp/BASELINE.json stable_pass.
+# Tests that fail in the full run are re-run alone (per package, up to 2 more times): the suite has wall-clock
+# sensitive tests (TestRuntimeStability_*, queue shrink timers, ...) that only fail on a loaded machine.
 # usage: lib/baseline.sh [repo_dir]
 REPO=${1:-/repo}
 OUT=$(mktemp /var/tmp/verif-baseline-XXXXXX.json)
 (cd "$REPO" && GOFLAGS=-mod=mod GOPROXY=off go test -json -vet=off -count=1 -timeout 25m ./... > "$OUT" 2>&1)
-python3 - "$OUT" <<'PY'
-import json, sys
-passed=set(); failed=set()
-for line in open(sys.argv[1], errors='replace'):
-    try: e=json.loads(line)
-    except Exception: continue
-    if e.get('Test') and e.get('Action') in ('pass','fail'):
-        (passed if e['Action']=='pass' else failed).add(e['Package']+'::'+e['Test'])
+python3 - "$OUT" "$REPO" <<'PY'
+import json, os, subprocess, sys
+def parse(lines):
+    passed=set(); failed=set()
+    for line in lines:
+        try: e=json.loads(line)
+        except Exception: continue
+        if e.get('Test') and e.get('Action') in ('pass','fail'):
+            (passed if e['Action']=='pass' else failed).add(e['Package']+'::'+e['Test'])
+    return passed, failed
+passed, failed = parse(open(sys.argv[1], errors='replace'))
 b=json.load(open('/root/.vp/BASELINE.json'))
 stable=set(b['stable_pass'])
 missing=sorted(stable-passed)
+rerun=[]
+env=dict(os.environ, GOFLAGS='-mod=mod', GOPROXY='off')
+for attempt in range(2):
+    todo=[m for m in missing if m not in passed]
+    if not todo: break
+    bypkg={}
+    for m in todo:
+        pkg,t=m.split('::',1)
+        bypkg.setdefault(pkg,set()).add(t.split('/')[0])
+    for pkg,tests in bypkg.items():
+        p=subprocess.run(['go','test','-json','-vet=off','-count=1','-timeout','20m','-run','^(%s)$' % '|'.join(sorted(tests)),pkg],
+                         cwd=sys.argv[2], env=env, stdout=subprocess.PIPE, stderr=subprocess.STDOUT, text=True)
+        p2,_=parse(p.stdout.splitlines())
+        rerun += sorted(set(todo)&p2)
+        passed |= p2
+missing=sorted(stable-passed)
 print('baseline: %d stable tests, %d passed now, %d missing/failed' % (len(stable), len(stable&passed), len(missing)))
+if rerun: print('  passed only when re-run alone (timing-sensitive under load): %s' % ', '.join(sorted(set(rerun))[:20]))
 for m in missing[:30]: print('  NOT PASSING:', m, '(failed)' if m in failed else '(not run)')
 sys.exit(1 if missing else 0)
 PY
